@@ -1,0 +1,39 @@
+//go:build verif
+
+// Contracts for package cwriter (comment-only; read by /verif/bin/gowp).
+package cwriter
+
+// Struct invariant of Writer. It is assumed, not checked at construction: New fills the
+// escape buffer with copy() into a byte slice, which is outside the engine's string model
+// (16-byte buffer holding ESC [ ); the other fields are plain assignments in New.
+//@ typeinv Writer self.Buffer != nil && self.termSize != nil && self.ew == "\x1b[" && self.out != nil
+
+//@ functype cwriter_Writer.termSize
+//@   modifies nothing
+
+//@ func (escWriter).ansiCuuAndEd
+//@   props    C04 C02
+//@   requires out != nil
+//@   modifies written(out)
+//@   ensures  result == nil ==> written(out) == old(written(out)) + b + itoa(n) + "A\x1b[J"
+
+// Flush writes the whole buffer to the output once and leaves in the buffer exactly the
+// cursor-up/erase sequence for the next frame (nothing when there are no lines to go up).
+//@ func (*Writer).Flush
+//@   props    C04 C13 C18 C02
+//@   requires w != nil && wkey(w.out) != w.Buffer
+//@   modifies written(w.out), written(w.Buffer)
+//@   ensures  emitted: result == nil ==> written(w.out) == old(written(w.out)) + old(written(w.Buffer))
+//@   ensures  cuu: result == nil && lines > 0 ==> written(w.Buffer) == "\x1b[" + itoa(lines) + "A\x1b[J"
+//@   ensures  nocuu: result == nil && lines <= 0 ==> written(w.Buffer) == ""
+
+//@ func (*Writer).IsTerminal
+//@   props    C04
+//@   pure
+//@   requires w != nil
+//@   ensures  result == w.terminal
+
+//@ func (*Writer).GetTermSize
+//@   props    C04 C02
+//@   requires w != nil
+//@   modifies nothing
